@@ -9,10 +9,13 @@ import (
 	"fmt"
 	"io"
 	"os"
+	"os/signal"
 	"regexp"
+	"runtime"
 	"runtime/debug"
 	"strings"
 	"syscall"
+	"time"
 
 	"github.com/pdfcpu/pdfcpu/pkg/api"
 	"github.com/pdfcpu/pdfcpu/pkg/pdfcpu"
@@ -127,7 +130,50 @@ func clean1(s string) string {
 	return s
 }
 
+// hangProfile answers SIGUSR1: it samples the stack of the goroutine running the entry point n times and
+// prints, for every pdfcpu function (innermost first, in the order of the first sample), in how many
+// samples it was on the stack. The function whose loop does not end is on the stack in ALL samples,
+// what it calls is not.
+func hangProfile() {
+	ch := make(chan os.Signal, 1)
+	signal.Notify(ch, syscall.SIGUSR1)
+	for range ch {
+		const n = 150
+		cnt := map[string]int{}
+		var order []string
+		buf := make([]byte, 4<<20)
+		for i := 0; i < n; i++ {
+			st := string(buf[:runtime.Stack(buf, true)])
+			seen := map[string]bool{}
+			for _, blk := range strings.Split(st, "\n\ngoroutine ") {
+				if !strings.Contains(blk, "main.runOp") {
+					continue
+				}
+				for _, m := range frameRe.FindAllStringSubmatch(blk, -1) {
+					f := strings.TrimPrefix(m[1], "github.com/pdfcpu/pdfcpu/pkg/")
+					if !seen[f] {
+						seen[f] = true
+						cnt[f]++
+						if i == 0 {
+							order = append(order, f)
+						}
+					}
+				}
+				break
+			}
+			time.Sleep(4 * time.Millisecond)
+		}
+		var sb strings.Builder
+		fmt.Fprintf(&sb, "HANGPROFILE\t%d\t", n)
+		for _, f := range order {
+			fmt.Fprintf(&sb, "%s=%d;", f, cnt[f])
+		}
+		fmt.Fprintln(os.Stderr, sb.String())
+	}
+}
+
 func childMain() {
+	go hangProfile()
 	api.DisableConfigDir()
 	// signature validation needs a trust store directory: an empty one, made by the parent
 	if d := os.Getenv("C08_CERTDIR"); d != "" {
